@@ -214,6 +214,12 @@ def _check_path(ctx, module, func, fq, qual, path, result, verdicts):
                 for t in step.node.targets:  # plain alias (e.g. parameter binding of an inlined helper)
                     allocs.setdefault(t.id, _Alias(alloc, t.id))
                 continue
+            if step.kind == "stmt" and isinstance(step.node, ast.Assign) and isinstance(step.node.value, ast.Attribute) \
+                    and step.node.value.attr == "values" and isinstance(step.node.value.value, ast.Name) \
+                    and step.node.value.value.id == name and all(isinstance(t, ast.Name) for t in step.node.targets):
+                for t in step.node.targets:  # the structured view of the same buffer held in a local (v = V.values; v[key] = ...)
+                    allocs.setdefault(t.id, _Alias(alloc, t.id))
+                continue
             use = _uses_whole(step, name, ctx, module)
             # handing V.values.ravel() to a raw writer is judged by _initialised
             if use is not None:
@@ -350,6 +356,11 @@ def _index_loop_over(iter_text: str, alloc) -> str:
     """``range(len(X))`` is an index loop over all of X.  When X is the key tuple of the new buffer, or the exponent
     matrix the buffer was allocated from (one key per row), the loop visits every key position: it is reported as a
     loop over ``<alloc>.keys`` (the stores are then matched by position, see _elem_of)."""
+    import re as _re
+
+    m = _re.match(r"^range\((\d+), len\((.*)\)\)$", iter_text)
+    if m and m.group(2).endswith(".keys"):
+        return f"{m.group(2)}[{m.group(1)}:]"  # tail index loop over keys[k:]
     if iter_text.startswith("range(len(") and iter_text.endswith("))"):
         over = iter_text[len("range(len("):-2]
         if over.endswith(".keys"):
